@@ -1806,7 +1806,7 @@ impl Sessions {
         let mut lru_index = None;
         let mut lru_ts = Instant::now();
         for (i, s) in self.sessions.iter().enumerate() {
-            if (s.expired || s.last_use < lru_ts)
+            if (s.expired || lru_index.is_none() || s.last_use < lru_ts)
                 && !s.reserved
                 && s.exchanges.iter().all(Option::is_none)
             {
